@@ -169,7 +169,12 @@ M_C07(pre, a, obs, post) ==
     \cup If(\A u \in Users : post.csubs[t][u].st = "live" =>
                 M(post.csubs[t][u].given) = CChnReader /\ M(post.csubs[t][u].want) \subseteq CChnReader /\ {"J", "R"} \subseteq M(post.csubs[t][u].want),
             "ChannelReaderModesFixed")
-    \cup If(\A u \in Users : post.csubs[t][u] # pre.csubs[t][u] => u = actor, "ChannelReaderRowChangedOnlyBySelf")
+    \* (deleting the whole topic removes every reader's row: that is the owner's deletion, not a change of somebody's permissions;
+    \*  Reload re-subscribes every attached reader: their own requests)
+    \cup If(\A u \in Users : post.csubs[t][u] # pre.csubs[t][u] =>
+                \/ u = actor
+                \/ (pre.topics[t].exists /\ ~post.topics[t].exists)
+                \/ (a.a = "Reload" /\ a.t = t /\ \E x \in AttOf(pre.cache[t]) : x.u = u), "ChannelReaderRowChangedOnlyBySelf")
     : tt \in GrpTopics }
   \cup UNION {
     LET t == tt IN
